@@ -76,6 +76,13 @@ class Ctx:
     def eval(self, p: Poly):
         return p.eval(self.value_of)
 
+    def eval_or_none(self, p: Poly):
+        try:
+            return p.eval(self.value_of)
+        except (EngineError, ZeroDivisionError, OverflowError):
+            self.on_witness = False
+            return None
+
     def assume(self, kind, p: Poly, tag=""):
         if p.is_const():
             c = p.const_value()
